@@ -148,17 +148,32 @@ pub fn exec_in_thread(
 ) -> Result<(RunOut, MonOut), String> {
     let p = p.clone();
     let cfg = cfg.clone();
+    let (tx, rx) = std::sync::mpsc::channel();
     let h = std::thread::Builder::new()
         .stack_size(32 << 20)
         .spawn(move || {
             crate::world::IS_RUN_THREAD.with(|c| c.set(true));
-            f(&p, &cfg)
+            let r = std::panic::catch_unwind(std::panic::AssertUnwindSafe(|| f(&p, &cfg)));
+            let _ = tx.send(r.map_err(|_| crate::take_last_panic()));
         })
         .map_err(|e| format!("spawn: {e}"))?;
-    h.join().map_err(|_| {
-        let pi = crate::take_last_panic();
-        format!("harness panic: {:?}", pi)
-    })
+    // a run that never returns (the code under test loops without touching the environment)
+    // must not hang the batch: give up on it after a generous wall-clock limit
+    match rx.recv_timeout(std::time::Duration::from_secs(run_timeout_s())) {
+        Ok(Ok(x)) => {
+            let _ = h.join();
+            Ok(x)
+        }
+        Ok(Err(pi)) => {
+            let _ = h.join();
+            Err(format!("harness panic: {:?}", pi))
+        }
+        Err(_) => Err("TIMEOUT: the run did not return".to_string()),
+    }
+}
+
+pub fn run_timeout_s() -> u64 {
+    std::env::var("VERIF_RUN_TIMEOUT_S").ok().and_then(|s| s.parse().ok()).unwrap_or(90)
 }
 
 pub fn run_batch(base_seed: u64, batch: &Batch, workers: usize, deadline: Instant, agg: &Mutex<Agg>) {
@@ -209,7 +224,18 @@ pub fn run_batch(base_seed: u64, batch: &Batch, workers: usize, deadline: Instan
                         }
                     }
                     Err(e) => {
-                        agg.lock().unwrap().harness_errors.push(format!("batch {} run {}: {}", batch.name, idx, e));
+                        let mut a = agg.lock().unwrap();
+                        if e.starts_with("TIMEOUT") && batch.profile.name.starts_with("c14") {
+                            // C14.R2: never hang
+                            a.violations.push((
+                                batch.name.clone(),
+                                idx,
+                                Violation { prop: "C14".into(), rule: "C14.R2".into(), site: "hang".into(), detail: format!("the run did not return within {} s of wall-clock time: the code under test loops without touching its environment", run_timeout_s()) },
+                                cfg.overrides.clone(),
+                            ));
+                        } else {
+                            a.harness_errors.push(format!("batch {} run {}: {}", batch.name, idx, e));
+                        }
                     }
                 }
             });
